@@ -12,6 +12,11 @@ convergence layer decoded again, what the three properties state:
        Hop Count block one greater, at most one Bundle Age block with the age since creation (creation times from
        seconds to ten days ago; none for a clock-less source), unique block numbers, payload numbered 1 and last,
        CRCs valid (independent implementation of harness/c08_bounded.py)
+  C12  bundles for a local endpoint with integrity / confidentiality blocks (one or two blocks, one or two targets,
+       unknown context, two results for a target, missing target block), the per-target cryptographic verdict scripted
+       (the primitive is the only thing replaced), acceptance off and on: delivered only if every target of every
+       block verifies; otherwise not delivered, the application step not reached, marked deleted with a security
+       reason 12..16, one deletion report, nothing raised
   C19  status reports for every combination of the four request flags (+ status time) x report-to set / dtn:none x
        outcome (deliver, forward, forward as fragments, delete by route, no route): sent iff requested and
        occurred, addressed to report-to, subject identity, only the assertions requested and true, administrative
@@ -348,7 +353,106 @@ def c19(fails, stats, tier):
                         fails.append({'check': 'S-report-crc', 'case': case, 'got': probe[0]})
 
 
-PARTS = {'C10': c10, 'C11': c11, 'C19': c19}
+# ---------------------------------------------------------------------------------------------------------- C12
+def c12(fails, stats, tier):
+    '''Fail-closed handling of security blocks.  The cryptographic primitive of one target (CoseContext.
+    verify_bib_target / verify_bcb_target) is replaced by a scripted verdict per (security block number, target);
+    everything else -- the receive steps, the context's per-block logic, the agent -- is the real code.'''
+    from bp.encoding.bpsec import BlockIntegrityBlock, BlockConfidentialityBlock, TargetResultList, TypeValuePair
+    import bp.app.bpsec as bs
+
+    def secblk(cls, num, ctx, targets, nres=1):
+        return CanonicalBlock(block_num=num, crc_type=1) / cls(
+            targets=list(targets), context_id=ctx, context_flags=1, parameters=[TypeValuePair(type_code=99, value=0)],
+            source='dtn://s/', results=[TargetResultList(results=[TypeValuePair(type_code=1, value=b'\xd1\x80')] * nres)
+                                        for _t in targets])
+
+    def run(blocks, verdicts, accept):
+        ag, sent, fin = new_agent([(r'dtn://me/.*', 'deliver')])
+        app = ag._app['bpsec']
+        ctx = app._contexts[bs.BPSEC_COSE_CONTEXT_ID]
+        ctx._config.accept_after_verify = accept
+        reached = []
+
+        def scripted(secop, result):
+            v = verdicts.get((secop.sec_blk.block_num, secop.tgt_blk.block_num), 'fail')
+            return None if v == 'ok' else StatusReport.ReasonCode.FAILED_SEC
+        ctx.verify_bib_target = scripted
+        ctx.verify_bcb_target = scripted
+        from bp.util import ChainStep
+        ag._rx_chain.append(ChainStep(order=25, name='C12 application stand-in',
+                                      action=lambda c: reached.append(sorted(c.actions)) and None))
+        ag._rx_chain.sort()
+        ext = [CanonicalBlock(type_code=192, block_num=2, crc_type=1, btsd=b'\x01')]
+        payload = CanonicalBlock(type_code=1, block_num=1, crc_type=2, btsd=b'hello')
+        b = Bundle(primary=PrimaryBlock(destination='dtn://me/svc', source='dtn://s/', report_to='dtn://r/',
+                                        bundle_flags=REQ['deliver'] | REQ['delete'], crc_type=2,
+                                        create_ts=Timestamp(dtntime=1000, seqno=7), lifetime=10 ** 10),
+                   blocks=list(blocks) + ext + [payload])
+        b.fill_fields()
+        b.update_all_crc()
+        ctr = BundleContainer(Bundle(bytes(b)))
+        err = None
+        try:
+            ag.recv_bundle(ctr)
+            GLib.pump_idle(100)
+        except Exception as e:  # noqa
+            err = '%s: %s' % (type(e).__name__, e)
+        _data, reps = split_out(sent)
+        return ctr, reached, reps, err
+    BIB, BCB = BlockIntegrityBlock, BlockConfidentialityBlock
+    ok1 = {(3, 1): 'ok'}
+    scen = [
+        # name, blocks, verdicts, must be delivered
+        ('no-security-blocks', [], {}, True),
+        ('bib-verifies', [secblk(BIB, 3, 3, [1])], ok1, True),
+        ('bib-fails', [secblk(BIB, 3, 3, [1])], {}, False),
+        ('bib-unknown-context', [secblk(BIB, 3, 99, [1])], ok1, False),
+        ('bib-two-results-for-a-target', [secblk(BIB, 3, 3, [1], nres=2)], ok1, False),
+        ('bib-missing-target', [secblk(BIB, 3, 3, [9])], {(3, 9): 'ok'}, False),
+        ('bib-first-target-fails-last-verifies', [secblk(BIB, 3, 3, [2, 1])], {(3, 1): 'ok'}, False),
+        ('bib-last-target-fails', [secblk(BIB, 3, 3, [1, 2])], {(3, 1): 'ok'}, False),
+        ('bib-all-targets-verify', [secblk(BIB, 3, 3, [1, 2])], {(3, 1): 'ok', (3, 2): 'ok'}, True),
+        ('two-bibs-second-fails', [secblk(BIB, 3, 3, [1]), secblk(BIB, 4, 3, [2])], ok1, False),
+        ('two-bibs-first-fails', [secblk(BIB, 3, 3, [1]), secblk(BIB, 4, 3, [2])], {(4, 2): 'ok'}, False),
+        ('two-bibs-unknown-and-failing', [secblk(BIB, 3, 99, [1]), secblk(BIB, 4, 3, [2])], {}, False),
+        ('two-bibs-verify', [secblk(BIB, 3, 3, [1]), secblk(BIB, 4, 3, [2])], {(3, 1): 'ok', (4, 2): 'ok'}, True),
+        ('bcb-verifies', [secblk(BCB, 3, 3, [1])], ok1, True),
+        ('bcb-fails', [secblk(BCB, 3, 3, [1])], {}, False),
+        ('bcb-unknown-context', [secblk(BCB, 3, 99, [1])], ok1, False),
+        ('two-bcbs-second-fails', [secblk(BCB, 3, 3, [1]), secblk(BCB, 4, 3, [2])], ok1, False),
+        ('bcb-verifies-bib-fails', [secblk(BCB, 3, 3, [1]), secblk(BIB, 4, 3, [2])], ok1, False),
+    ]
+    for name, blocks, verdicts, deliver in scen:
+        for accept in (False, True):
+            stats['evaluations'] += 1
+            case = {'scenario': name, 'accept_after_verify': accept}
+            try:
+                ctr, reached, reps, err = run(blocks, verdicts, accept)
+            except Exception as e:  # noqa
+                fails.append({'check': 'X-harness', 'case': case, 'got': '%s: %s' % (type(e).__name__, e)})
+                continue
+            acts = sorted(ctr.actions)
+            if err:
+                fails.append({'check': 'X-exception-out-of-recv_bundle', 'case': case, 'got': err})
+                continue
+            if deliver:
+                if 'deliver' not in acts or 'delete' in acts or not reached:
+                    fails.append({'check': 'X-valid-bundle-not-delivered', 'case': case, 'actions': acts})
+                continue
+            reason = ctr.status_reason
+            if 'deliver' in acts or reached:
+                fails.append({'check': 'X-unverified-bundle-delivered', 'case': case, 'actions': acts, 'application_step_reached': bool(reached)})
+                continue
+            if 'delete' not in acts or not isinstance(reason, int) or not (12 <= int(reason) <= 16):
+                fails.append({'check': 'X-not-marked-deleted-with-security-reason', 'case': case, 'actions': acts, 'reason': str(reason)})
+                continue
+            if len(reps) != 1 or reps[0][2].status.delivered.status or not reps[0][2].status.deleted.status or \
+                    not (12 <= int(reps[0][2].reason_code) <= 16):
+                fails.append({'check': 'X-report', 'case': case, 'reports': len(reps)})
+
+
+PARTS = {'C10': c10, 'C11': c11, 'C19': c19, 'C12': c12}
 
 
 def main(argv):
